@@ -33,15 +33,18 @@ def fixed_families():
                      alpha=[A, 0xC3, 0xA9]))
     # 4-way fan-out at root and below, only leaves at depth 2 carry tokens on one branch (interior nodes without token)
     fams.append(dict(name="fanout", words=[_w(x) for x in ["a", "b", "c", "d", "aa", "ab", "ac", "ad", "dca", "dcb", "dd"]], alpha=[A, B, C_, D]))
+    # tokens whose proper prefixes are NOT tokens (interior trie nodes without a token id on the way): a start prefix can leave the
+    # trie right after such a node
+    fams.append(dict(name="sparse", words=[_w(x) for x in ["abc", "abd", "b", "ca", "cab", "d"]], alpha=[A, B, C_, D]))
     # tiny byte-complete vocabulary for the functions that build vectors / chase node pointers (greedy, chop)
     fams.append(dict(name="tiny", words=[_w(x) for x in ["a", "b", "ab", "bab"]], alpha=[A, B]))
     return fams
 
 
-def random_family(rng, idx):
+def random_family(rng, idx, small=False):
     nalpha = rng.choice([2, 3, 3])
     alpha = [A, B, C_][:nalpha]
-    n = rng.randint(8, 13)
+    n = rng.randint(6, 8) if small else rng.randint(8, 13)
     words = [[a] for a in alpha]  # byte-complete
     while len(words) < n:
         r = rng.random()
@@ -64,11 +67,11 @@ def random_family(rng, idx):
     return dict(name="rnd%d" % idx, words=words, alpha=alpha)
 
 
-def families(seed, n_random):
+def families(seed, n_random, small=False):
     fams = fixed_families()
     rng = random.Random(1000 + seed)
     for i in range(n_random):
-        fams.append(random_family(rng, i))
+        fams.append(random_family(rng, i, small))
     for f in fams:
         rr = random.Random((zlib.crc32(f["name"].encode()) & 0xffff) ^ seed)
         f["eos"] = len(f["words"]) - 1
